@@ -216,14 +216,10 @@ Proof.
 Qed.
 
 Lemma delattr_constructed_l : forall W c kw h h' o name,
-  run as_written W (QConstruct c kw) h = (h', RVal o) -> setattr_allowed name = false ->
+  private_attrs h -> run as_written W (QConstruct c kw) h = (h', RVal o) -> setattr_allowed name = false ->
   py_delattr o name h' = (h', RExc "AttributeError").
 Proof.
-  unfold run. intros W c kw h h' o name H Hn.
-  change (interp as_written W FUEL FUEL (QConstruct c kw) h)
-    with (construct W (interp as_written W FUEL 39) c kw h) in H.
-  destruct (construct_obj _ _ _ _ _ _ _ H) as (l & fs & -> & E & A).
-  eapply delattr_refused_l; eauto.
+  intros W c kw h h' o name P H Hn. apply delattr_public; auto. eapply run_priv; eauto.
 Qed.
 
 (* ---- the frame theorem is false when a defensive copy is missing ---- *)
@@ -231,9 +227,9 @@ Definition tiny_world : world :=
   {| classes := [(u "v21.File", [(u "extensions", KExt true)]); (u "v21.NTFSExt", [(u "sid", KAtom)]);
                  (u "v21.ObservedData", [(u "objects", KObs true)])];
      registry := [(u "2.1/extensions/ntfs-ext", u "v21.NTFSExt"); (u "2.1/observables/file", u "v21.File")];
-     det_id := []; defaults := []; defn_classes := [] |}.
+     det_id := []; defaults := []; defn_classes := []; with_ext := []; observables := []; keep_in_bundle := [] |}.
 
-Definition with_ext (cm : copy_mode) : variant := {| cm_ext := cm; cm_obs := Deep; cm_pobs := Deep; cm_nv := Deep; cm_fac := Deep |}.
+Definition variant_ext (cm : copy_mode) : variant := {| cm_ext := cm; cm_obs := Deep; cm_pobs := Deep; cm_nv := Deep; cm_fac := Deep |}.
 Definition with_pobs (cm : copy_mode) : variant := {| cm_ext := Deep; cm_obs := Deep; cm_pobs := cm; cm_nv := Deep; cm_fac := Deep |}.
 Definition with_nv (cm : copy_mode) : variant := {| cm_ext := Deep; cm_obs := Deep; cm_pobs := Deep; cm_nv := cm; cm_fac := Deep |}.
 Definition with_fac (cm : copy_mode) : variant := {| cm_ext := Deep; cm_obs := Deep; cm_pobs := Deep; cm_nv := Deep; cm_fac := cm |}.
@@ -242,7 +238,7 @@ Definition with_fac (cm : copy_mode) : variant := {| cm_ext := Deep; cm_obs := D
 Definition heap_ext : heap := [NDict [(u "sid", VA (AStr (u "x")))]; NDict [(u "ntfs-ext", VR 0)]].
 
 Lemma ext_nocopy_refuted_l :
-  exists h', fst (run (with_ext NoCopy) tiny_world (QClean (KExt true) (VR 1)) heap_ext) = h' /\ ~ unchanged heap_ext h'.
+  exists h', fst (run (variant_ext NoCopy) tiny_world (QClean (KExt true) (VR 1)) heap_ext) = h' /\ ~ unchanged heap_ext h'.
 Proof.
   eexists. split; [reflexivity|]. intro U. specialize (U 1 _ eq_refl). vm_compute in U. discriminate.
 Qed.
@@ -278,4 +274,29 @@ Lemma fac_shallow_refuted_l :
   exists h', fst (factory_create (with_fac Shallow) tiny_world (VR 2) (u "v21.File") (VR 3) heap_fac) = h' /\ ~ unchanged heap_fac h'.
 Proof.
   eexists. split; [reflexivity|]. intro U. specialize (U 0 _ eq_refl). vm_compute in U. discriminate.
+Qed.
+
+(* a custom type declared with extension_name=: its constructor writes the type's own extension
+   into the STORED extensions dict -- the caller's, if ExtensionsProperty.clean does not copy *)
+Definition custom_world : world :=
+  {| classes := [(u "custom.T", [(u "name", KAtom); (u "extensions", KExt true)]); (u "custom.E", [])];
+     registry := [(u "2.1/extensions/extension-definition--1", u "custom.E")];
+     det_id := []; defaults := []; defn_classes := [];
+     with_ext := [(u "custom.T", u "extension-definition--1")]; observables := []; keep_in_bundle := [] |}.
+
+(* caller: ext = {} ; kw = {"name": "n", "extensions": ext} *)
+Definition heap_custom : heap := [NDict []; NDict [(u "name", VA (AStr (u "n"))); (u "extensions", VR 0)]].
+
+Lemma custom_nocopy_refuted_l :
+  exists h', fst (run (variant_ext NoCopy) custom_world (QConstruct (u "custom.T") (VR 1)) heap_custom) = h' /\ ~ unchanged heap_custom h'.
+Proof.
+  eexists. split; [reflexivity|]. intro U. specialize (U 0 _ eq_refl). vm_compute in U. discriminate.
+Qed.
+
+Lemma custom_runs_l :
+  exists h' o, run as_written custom_world (QConstruct (u "custom.T") (VR 1)) heap_custom = (h', RVal (VR o)) /\
+               get h' 0 = Some (NDict []) /\ mapping_get h' (VR 3) (u "extension-definition--1") <> None.
+Proof.
+  eexists; eexists. split; [vm_compute; reflexivity|]. split; [vm_compute; reflexivity|].
+  vm_compute. discriminate.
 Qed.
